@@ -19,6 +19,10 @@ POOL = {
     "k2l1": ("K2", "K2l", ("d2", "d3"), 17.0), "k2l2": ("K2", "K2l", ("d2", "d3"), 19.0),
 }
 KEYS = {"K1": ("a1",), "K2": ("a1", "a2")}
+ILL_KEYS = {"KX": ("a1", "a9"), "KY": ("a9",)}                 # a9: an axis the grid lacks
+ILL_CALLS = [{"k": "KX", "vs": ["k1c1"], "ow": ow, "ill": "axis"} for ow in (False, True)] + \
+            [{"k": "KY", "vs": ["k1l1"], "ow": False, "ill": "axis"}] + \
+            [{"k": k, "vs": ["nosuch"], "ow": ow, "ill": "variable"} for k in ("K1", "K2") for ow in (False, True)]
 SLOT_DIMS = {"K1c": ("d1",), "K1l": ("d2",), "K1o": ("d5",), "K2c": ("d1", "d3"), "K2l": ("d2", "d3")}
 N = 3
 
@@ -119,11 +123,11 @@ def run_history(history, last_via_ctor_first=False):
         try:
             if step == 0 and call.get("ctor"):
                 grid = xgcm.Grid(ds, coords=coords, periodic=False, autoparse_metadata=False,
-                                 metrics={KEYS[call["k"]]: list(call["vs"])})
+                                 metrics={(KEYS | ILL_KEYS)[call["k"]]: list(call["vs"])})
             else:
                 if grid is None:
                     grid = xgcm.Grid(ds, coords=coords, periodic=False, autoparse_metadata=False)
-                grid.set_metrics(KEYS[call["k"]], list(call["vs"]), overwrite=call["ow"])
+                grid.set_metrics((KEYS | ILL_KEYS)[call["k"]], list(call["vs"]), overwrite=call["ow"])
         except ValueError as ex:
             out = {"k": "refused", "msg": str(ex)[:120]}
         except Exception as ex:
@@ -132,6 +136,8 @@ def run_history(history, last_via_ctor_first=False):
             grid = xgcm.Grid(ds, coords=coords, periodic=False, autoparse_metadata=False)
         rec = {"call": {"k": call["k"], "vs": list(call["vs"]), "ow": bool(call["ow"]), "ctor": bool(call.get("ctor"))},
                "pre": pre, "post": project(grid), "out": out}
+        if call.get("ill"):
+            rec["call"]["ill"] = call["ill"]
     gm = answers(grid)
     rec["gm"] = gm
     return rec
@@ -201,6 +207,10 @@ def run(ctx):
                 jobs.append((hist, dict(c)))
                 if d == 0:
                     jobs.append((hist, dict(c, ctor=True)))
+            for c in ILL_CALLS:
+                jobs.append((hist, dict(c)))
+                if d == 0:
+                    jobs.append((hist, dict(c, ctor=True)))
         # in portions, so that an implementation whose calls hang or fail is reported without finishing the level
         results = []
         for lo in range(0, len(jobs), 1600):
@@ -212,7 +222,7 @@ def run(ctx):
         new = {}
         for (hist, c), r in zip(jobs, results):
             cid += 1
-            r.update({"id": cid, "ev": "SetMetrics", "pool": pool_list, "history_len": len(hist) + 1,
+            r.update({"id": cid, "ev": "SetMetricsIll" if c.get("ill") else "SetMetrics", "pool": pool_list, "history_len": len(hist) + 1,
                       "history": hist + [c]})
             recs.append(r)
             sk = state_key(r["post"])
